@@ -1,6 +1,6 @@
 (* C12: sort_rows emits a stable, correctly ordered permutation. *)
 From Coq Require Import List ZArith Bool Permutation Sorted.
-From DF Require Import Base.Str Base.Value Proc.RowOps Proc.Fields Proc.Sort Proc.Sort_proofs Proc.SortFloat_proofs Gen.Consts.
+From DF Require Import Base.Str Base.Value Proc.RowOps Proc.Fields Proc.Sort Proc.Sort_proofs Proc.SortFloat_proofs Proc.SortNumeric_proofs Gen.Consts.
 Import ListNotations.
 Open Scope Z_scope.
 
@@ -92,6 +92,16 @@ Theorem C12_numeric_text_key_order : forall m e m' e' S,
   (str_ltb (hexw 16 (num_key m e)) (hexw 16 (num_key m' e')) = true <-> m * 2 ^ (e - S) < m' * 2 ^ (e' - S)).
 Proof. exact numeric_text_key_order. Qed.
 Print Assumptions C12_numeric_text_key_order.
+
+(* end to end for one numeric key field: for every list of canonical binary64 numbers (below 16^8 rows) the sorter's
+   store returns the row numbers in ascending order of the numbers, equal numbers in input order, each row once *)
+Theorem C12_numeric_sort_end_to_end : forall S vals,
+  Forall (ok_at S) vals -> Z.of_nat (length vals) <= 16 ^ Z.of_nat 8 ->
+  let out := sorted_tags 8 (map nkey vals) in
+  StronglySorted (by_value S vals) out /\
+  Permutation (map snd out) (map (fun n => 0 + Z.of_nat n) (seq 0 (length vals))).
+Proof. exact numeric_sort_order. Qed.
+Print Assumptions C12_numeric_sort_end_to_end.
 
 (* premises are satisfiable: 2.5 < 3 (5*2^-1 vs 3*2^0, scale -52) *)
 Example C12_numeric_nonvacuous : num_key 5 (-1) < num_key 3 0 /\ num_key (-3) 0 < num_key (-5) (-1).
